@@ -88,4 +88,62 @@ Proof.
   destruct (array_faithful v2 p Hok f2 u2 use t tstr len c u2' o2 W2 C2 Ep H2 F2) as (e2 & L2 & K2 & Ln2 & n2 & E2 & Ch2).
   exists e1, e2. split; [exact L1|]. split; [exact L2|]. split; [congruence|]. split; [congruence|]. rewrite E1, E2. f_equal. exact (child_is_unique None c _ _ Hc Ch1 Ch2).
 Qed.
+(* func: the whole signature (parameter and result names and objects, variadic flag, receiver) *)
+Lemma tuple_unique : forall (ps : list (str * N)) l1 l2,
+  Forall (fun a => keyed None (snd a)) ps ->
+  Forall2 (fun (a : str * N) (b : str * name) => fst b = fst a /\ child_is v2 p None (snd a) (snd b)) ps l1 ->
+  Forall2 (fun (a : str * N) (b : str * name) => fst b = fst a /\ child_is v2 p None (snd a) (snd b)) ps l2 ->
+  l1 = l2.
+Proof.
+  induction ps as [|a ps IH]; intros l1 l2 Hk A B; inversion A; inversion B; subst; [reflexivity|].
+  inversion Hk; subst. f_equal; [|eapply IH; eauto].
+  match goal with Ha : fst ?y = fst a /\ _, Hb : fst ?y0 = fst a /\ _ |- ?y = ?y0 =>
+    destruct Ha as [Ha1 Ha2], Hb as [Hb1 Hb2]; destruct y as [ya yb], y0 as [y0a y0b]; simpl in *; subst;
+    f_equal; eapply child_is_unique; eauto end.
+Qed.
+Theorem func_independent f1 f2 u1 u2 use t tstr ps rs vr recv u1' u2' o1 o2 :
+  wf u1 -> canonical v2 u1 -> wf u2 -> canonical v2 u2 -> plookup t p = Some (tstr, SFunc ps rs vr recv) ->
+  Forall (fun a => keyed None (snd a)) ps -> Forall (fun a => keyed None (snd a)) rs ->
+  (forall r, recv = Some r -> keyed None r) ->
+  fresh_for u1 use tstr -> fresh_for u2 use tstr ->
+  walk v2 p (S f1) u1 use t = Some (u1', o1) -> walk v2 p (S f2) u2 use t = Some (u2', o2) ->
+  exists e1 e2, nlookup o1 (objs u1') = Some e1 /\ nlookup o2 (objs u2') = Some e2 /\
+                e_kind e1 = e_kind e2 /\ e_sig e1 = e_sig e2.
+Proof.
+  intros W1 C1 W2 C2 Ep Hps Hrs Hrc F1 F2 H1 H2.
+  destruct (func_faithful v2 p Hok f1 u1 use t tstr ps rs vr recv u1' o1 W1 C1 Ep H1 F1) as (e1 & g1 & L1 & K1 & S1 & V1 & P1 & R1 & Rc1).
+  destruct (func_faithful v2 p Hok f2 u2 use t tstr ps rs vr recv u2' o2 W2 C2 Ep H2 F2) as (e2 & g2 & L2 & K2 & S2 & V2 & P2 & R2 & Rc2).
+  exists e1, e2. split; [exact L1|]. split; [exact L2|]. split; [congruence|]. rewrite S1, S2. f_equal.
+  destruct g1 as [pa1 ra1 va1 rc1], g2 as [pa2 ra2 va2 rc2]; simpl in *. subst va1 va2.
+  rewrite (tuple_unique ps pa1 pa2 Hps P1 P2), (tuple_unique rs ra1 ra2 Hrs R1 R2). f_equal.
+  destruct recv as [r|], rc1 as [n1|], rc2 as [n2|]; try contradiction; [|reflexivity].
+  f_equal. exact (child_is_unique None r _ _ (Hrc r eq_refl) Rc1 Rc2).
+Qed.
+
+(* interface: the whole method list (names and the objects of the method signatures) *)
+Lemma methods_unique : forall (ms : list (str * str * N)) l1 l2,
+  Forall (fun m => keyed (Some (name_of_string v2 (snd (fst m)))) (snd m)) ms ->
+  Forall2 (fun (m : str * str * N) (x : str * name) => fst x = fst (fst m) /\ child_is v2 p (Some (name_of_string v2 (snd (fst m)))) (snd m) (snd x)) ms l1 ->
+  Forall2 (fun (m : str * str * N) (x : str * name) => fst x = fst (fst m) /\ child_is v2 p (Some (name_of_string v2 (snd (fst m)))) (snd m) (snd x)) ms l2 ->
+  l1 = l2.
+Proof.
+  induction ms as [|m ms IH]; intros l1 l2 Hk A B; inversion A; inversion B; subst; [reflexivity|].
+  inversion Hk; subst. f_equal; [|eapply IH; eauto].
+  match goal with Ha : fst ?y = fst (fst m) /\ _, Hb : fst ?y0 = fst (fst m) /\ _ |- ?y = ?y0 =>
+    destruct Ha as [Ha1 Ha2], Hb as [Hb1 Hb2]; destruct y as [ya yb], y0 as [y0a y0b]; simpl in *; subst;
+    f_equal; eapply child_is_unique; eauto end.
+Qed.
+Theorem iface_independent f1 f2 u1 u2 use t tstr ms u1' u2' o1 o2 :
+  wf u1 -> canonical v2 u1 -> wf u2 -> canonical v2 u2 -> plookup t p = Some (tstr, SIface ms) ->
+  Forall (fun m => keyed (Some (name_of_string v2 (snd (fst m)))) (snd m)) ms ->
+  fresh_for u1 use tstr -> fresh_for u2 use tstr ->
+  walk v2 p (S f1) u1 use t = Some (u1', o1) -> walk v2 p (S f2) u2 use t = Some (u2', o2) ->
+  exists e1 e2, nlookup o1 (objs u1') = Some e1 /\ nlookup o2 (objs u2') = Some e2 /\
+                e_kind e1 = e_kind e2 /\ e_methods e1 = e_methods e2.
+Proof.
+  intros W1 C1 W2 C2 Ep Hk F1 F2 H1 H2.
+  destruct (iface_faithful v2 p Hok f1 u1 use t tstr ms u1' o1 W1 C1 Ep H1 F1) as (e1 & L1 & K1 & M1).
+  destruct (iface_faithful v2 p Hok f2 u2 use t tstr ms u2' o2 W2 C2 Ep H2 F2) as (e2 & L2 & K2 & M2).
+  exists e1, e2. split; [exact L1|]. split; [exact L2|]. split; [congruence|]. eapply methods_unique; eauto.
+Qed.
 End Indep.
